@@ -14,6 +14,7 @@ received every call.
 import copy
 import json
 import os
+import re
 from concurrent.futures import ThreadPoolExecutor
 
 from lib import gobuild, tlc
@@ -174,25 +175,13 @@ def run(ctx):
                         "evaluations": len(res), "distinct_nontrivial": len(res), "rule": "replay of one recorded behaviour"}
         return
 
-    # ---- 1. exhaustive model checking of the design (runs beside everything else)
-    cfgs = ctx.pick(["one_seq", "one_ovl", "two_quick"],
-                    ["one_seq", "one_ovl", "two_seq", "two_ovl", "two_conc", "two_fine", "three"])
-    mc_pool = ThreadPoolExecutor(max_workers=3)
-    mc_futs = {c: mc_pool.submit(tlc.run, ctx, SPEC, "MC_Failover", cfg="MC_%s.cfg" % c, workers=4, timeout=ctx.pick(300, 840),
-                                 name="mc-" + c, coverage=False) for c in cfgs}
-
-    # ---- 2. the harness, from the working tree
-    try:
-        exe = gobuild.build(ctx, "fodrive")
-    except Inconclusive as e:
-        if "VerifFailover" in str(e):
-            raise Inconclusive("test-only exports of C15 are missing from the tree (apply /verif/patches/C15-hooks.diff): %s" % str(e)[-600:])
-        raise
+    # ---- 2. the harness, from the working tree (built while TLC generates)
+    build_pool = ThreadPoolExecutor(max_workers=1)
+    build_f = build_pool.submit(gobuild.build, ctx, "fodrive")
 
     # ---- 3. TLC produces the behaviours
     # (family, N, checks overlap calls)
-    plans = [("F1", 1, "FALSE"), ("F2", 1, "FALSE"), ("F3", 1, "FALSE"), ("F3", 2, "FALSE"), ("F4", 2, "FALSE"), ("F5", 3, "FALSE"),
-             ("F6", 1, "TRUE"), ("F6", 2, "TRUE")]
+    plans = [("F1+F2+F3", 1, "FALSE"), ("F3+F4", 2, "FALSE"), ("F5", 3, "FALSE"), ("F6", 1, "TRUE"), ("F6", 2, "TRUE")]
     # (N, call slots, checks overlap calls, behaviours, depth)
     sims = ctx.pick(
         [(1, "1", "FALSE", 100, 32), (2, "1", "FALSE", 250, 32), (3, "1", "FALSE", 250, 36), (4, "1", "FALSE", 100, 36),
@@ -239,11 +228,22 @@ def run(ctx):
         for f in sf:
             out, r = f.result()
             scripts += out
-            m = None
-            import re
             m = re.search(r"The number of states generated: (\d+)", r.out)
             gen_states += int(m.group(1)) if m else 0
     ctx.log("behaviours: %d planned + %d walks" % (nplans, len(scripts) - nplans))
+    try:
+        exe = build_f.result()
+    except Inconclusive as e:
+        if "VerifFailover" in str(e):
+            raise Inconclusive("test-only exports of C15 are missing from the tree (apply /verif/patches/C15-hooks.diff): %s" % str(e)[-600:])
+        raise
+
+    # ---- 3b. exhaustive model checking of the design (runs beside the replay)
+    cfgs = ctx.pick(["one_seq", "one_ovl", "two_quick"],
+                    ["one_seq", "one_ovl", "two_seq", "two_ovl", "two_conc", "two_fine", "three"])
+    mc_pool = ThreadPoolExecutor(max_workers=ctx.pick(3, 2))
+    mc_futs = {c: mc_pool.submit(tlc.run, ctx, SPEC, "MC_Failover", cfg="MC_%s.cfg" % c, workers=4, timeout=ctx.pick(300, 840),
+                                 name="mc-" + c, coverage=False) for c in cfgs}
 
     feats = {}
     for b in scripts:
@@ -261,9 +261,10 @@ def run(ctx):
     counts = judge(ctx, scripts, res)
     judged = counts.get("ok", 0) + counts.get("truncated", 0) + counts.get("diverged", 0)
     not_judged = len(scripts) - judged
-    if not_judged > max(5, len(scripts) // 20):
+    diverging = bool(ctx.violations)
+    if not diverging and not_judged > max(5, len(scripts) // 20):
         raise Inconclusive("%d of %d behaviours could not be judged (slow / unstable / harness error): %s" % (not_judged, len(scripts), counts))
-    if counts.get("truncated", 0) > len(scripts) // 4:
+    if not diverging and counts.get("truncated", 0) > len(scripts) // 4:
         raise Inconclusive("%d of %d behaviours were cut short because the real strategy could not be steered" % (counts.get("truncated", 0), len(scripts)))
 
     # ---- 5. the binding is demonstrated: a corrupted projection must be flagged, at the corrupted step
@@ -282,9 +283,10 @@ def run(ctx):
                 break
         else:
             selftest[kind] = "no candidate behaviour"
-    if len(bad_scripts) < 4:
+    if len(bad_scripts) < 4 and not diverging:
         raise Inconclusive("binding self-test: too few corruptible behaviours: %s" % selftest)
-    sres = replay(ctx, exe, bad_scripts, "selftest", timeout_every=0)
+    # (when the real code diverges on most behaviours there may be nothing clean left to corrupt: the divergences are the verdict)
+    sres = replay(ctx, exe, bad_scripts, "selftest", timeout_every=0) if bad_scripts else []
     for r in sres:
         kind, step, fields = expect[r["idx"]]
         if r["outcome"] == "diverged" and r["step"] == step and r["field"] in fields:
@@ -374,8 +376,27 @@ def judge(ctx, scripts, res):
             continue
         sc = scripts[r["idx"]]
         st = sc["steps"][r["step"]] if 0 <= r["step"] < len(sc["steps"]) else {"a": "Init"}
-        ctx.violate("C15:replay-diverged:%s:%s" % (r.get("action"), r.get("field")),
+        ctx.violate("C15:replay-diverged:%s:%s%s" % (r.get("action"), r.get("field"), status_class(sc, r)),
                     "real failover objects (%d endpoints) diverge from Failover at step %d (%s): %s; expected %s, got %s"
                     % (sc["n"], r["step"], st.get("a"), r.get("why"), r.get("expected"), r.get("got")),
                     {"kind": "replay", "script": {k: v for k, v in sc.items()}, "result": r})
     return counts
+
+
+def status_class(sc, r):
+    """For a status divergence at a status check: which way, and which rule the model applied (from the model's state before the check)."""
+    if r.get("field") != "status" or r.get("action") != "Check" or r["step"] < 1:
+        return ""
+    m = re.match(r"ep(\d+) status=(\w+)", r.get("expected", ""))
+    if not m:
+        return ""
+    e, model_healthy = int(m.group(1)), m.group(2) == "true"
+    st, fail, last_fail, send, a_succ, a_block, a_check = sc["steps"][r["step"] - 1]["st"]["h"][e - 1]
+    if not st:
+        return ":blocked-endpoint-changed-status"
+    if model_healthy:
+        ratio = "ratio>=1/2" if fail >= 2 and 2 * fail >= send else "ratio<1/2" if fail >= 2 else "failures<2"
+        return ":left-rotation-though-no-rule-applies(run=%d%s,%s%s)" % (
+            last_fail, "" if a_succ >= 5 else ",success<5s-ago", ratio, "" if a_check >= 60 else ",reinstated<60s-ago")
+    rule = "consecutive-failures" if last_fail >= 5 and a_succ >= 5 else "failure-ratio"
+    return ":stayed-in-rotation-though-%s-rule-applies" % rule
